@@ -12,6 +12,7 @@ from ..gen import progtools
 
 PROPERTY = "C03"
 LEVEL = "exploration"
+USES_REFERENCE_MODELS = True
 RULE = ("case = program assembled from data blocks: DIM (1-3 dimensions, decimal/hex bounds, several names, scalars) with "
         "stores to and read-back of all corner elements; implicit arrays; READ into scalar/element/string targets from DATA "
         "lines with quoted, unquoted (inner/trailing blanks), numeric, hex and empty items, before and after the READ, RESTORE "
